@@ -31,7 +31,7 @@ COMPONENTS = {
     "real": ["SciPySampler (all methods)", "scipy.stats / scipy.stats.qmc engines", "EnsembleEvaluator._init_samplers / _perturb_variables"],
     "stub": ["tap wrapper around the sampler", "SimEvaluator", "sim/scripted optimizer"],
 }
-PROBES = ["calls_checked", "qmc_calls", "lhs_stratification_checked", "shared_checked", "unshared_checked",
+PROBES = ["explicit_options_sampler", "calls_checked", "qmc_calls", "lhs_stratification_checked", "shared_checked", "unshared_checked",
           "masked_columns_checked", "repeated_call", "sampler_without_variables", "bounded_checked"]
 METHODS = ["uniform", "norm", "truncnorm", "sobol", "halton", "lhs"]
 BOUNDED = {"uniform", "truncnorm", "sobol", "halton", "lhs"}
@@ -49,6 +49,20 @@ def generate(seed: int, index: int, tier: str) -> dict:
     ns = rng.choice([1, 1, 2, 3])
     cfg["samplers"] = [{"method": "tap/" + (METHODS[index % 6] if i == 0 else rng.choice(METHODS)),
                         "shared": rng.random() < 0.5} for i in range(ns)]
+    # some samplers carry explicit distribution options; default-configured ones next to them (and after
+    # them, in the same process) must still honour the default range
+    for smp in cfg["samplers"]:
+        m = smp["method"].split("/")[1]
+        if rng.random() < 0.3:
+            if m == "uniform":
+                smp["options"] = {"loc": -5.0, "scale": 10.0}
+            elif m == "truncnorm":
+                smp["options"] = {"a": -3.0, "b": 3.0}
+            elif m == "norm":
+                smp["options"] = {"scale": 2.0}
+    if ns > 1 and rng.random() < 0.4:
+        m0 = cfg["samplers"][0]["method"]
+        cfg["samplers"][-1] = {"method": m0, "shared": rng.random() < 0.5}  # same method, default options
     if ns > 1:
         assign = [rng.randrange(ns) for _ in range(nv)]
         if rng.random() < 0.3:
@@ -114,7 +128,10 @@ def execute(scn: dict) -> dict:
             if all(np.array_equal(h[0], h[r]) for r in range(1, nr)):
                 viol.append({"clause": "unshared-identical", "sig": {}, "detail": f"{where}: all realizations received identical perturbations"})
                 continue
-        if method in BOUNDED:
+        explicit = bool(cfg["samplers"][rec["index"]].get("options"))
+        if explicit:
+            probe("explicit_options_sampler")
+        if method in BOUNDED and not explicit:
             probe("bounded_checked")
             if np.any(np.abs(h) > 1.0 + 1e-12):
                 viol.append({"clause": "out-of-range", "sig": {"method": method}, "detail": f"{where}: max |sample| {np.abs(h).max()}"})
